@@ -1,13 +1,14 @@
 CONSTANTS
   Alphabet <- L2
   Core <- L2Core
-  Mid <- L2Core
+  Mid <- L2Mid
   MaxAll = 2
-  MaxMid = 2
-  MaxCore = 2
+  MaxMid = 3
+  MaxCore = 5
   Wrappers <- Wrap2
   MaxWrap = 2
   MaxDeep = 1
+  DeepWraps = 0
 SPECIFICATION Spec
 INVARIANT Bounded
 INVARIANT Shape
